@@ -280,6 +280,7 @@ func init() {
 	for _, c := range []string{"flushall", "publish", "script"} {
 		c10KeyRule[c] = "none"
 	}
+	c10KeyRule["restore-asking"] = "first"
 }
 
 // c10Keys returns the key positions of a well-formed command of the enumerated set;
@@ -1093,6 +1094,43 @@ func runC10(rep *mc.Reporter) {
 			}
 			e.finish(rep, c10Scn{Part: "db-cmd", Cfg: *cfg})
 		}
+	}
+
+	// ---- Part E: command blacklists as ORDERED lists of names that are prefixes of one another
+	// (the result must not depend on the order, nor un-blacklist a built-in name)
+	pnames := []string{"set", "setex", "setnx", "incr", "incrby", "restore", "EVAL", "evalsha"}
+	eCmds := []c10Command{
+		{"db-cmd", "set", sb("a", "v")}, {"db-cmd", "setex", sb("a", "1", "v")}, {"db-cmd", "setnx", sb("a", "v")}, {"db-cmd", "incr", sb("a")},
+		{"db-cmd", "incrby", sb("a", "2")}, {"db-cmd", "restore", sb("a", "0", "x")}, {"db-cmd", "restore-asking", sb("a", "0", "x")},
+		{"db-cmd", "eval", sb("return 1", "1", "a")}, {"db-cmd", "evalsha", sb("abc", "1", "a")}, {"db-cmd", "del", sb("a")}, {"db-cmd", "flushall", sb()},
+	}
+	var lists [][]string
+	for i := range pnames {
+		lists = append(lists, []string{pnames[i]})
+		for j := range pnames {
+			if j == i {
+				continue
+			}
+			lists = append(lists, []string{pnames[i], pnames[j]})
+			for k := range pnames {
+				if k == i || k == j || (mc.Tier() != "thorough" && k > 3) {
+					continue
+				}
+				lists = append(lists, []string{pnames[i], pnames[j], pnames[k]})
+			}
+		}
+	}
+	for _, l := range lists {
+		if !mine() {
+			continue
+		}
+		rep.Scenario()
+		cfg := &c10Cfg{CmdBlack: l}
+		e := newC10Env(cfg)
+		for _, c := range eCmds {
+			e.evalCmd("db-cmd", c.fam, 0, c.cmd, c.args)
+		}
+		e.finish(rep, c10Scn{Part: "cmd-order", Cfg: *cfg})
 	}
 
 	if budget.Expired() {
